@@ -8,8 +8,8 @@
      (c) the carrier of Model/Tenalg.v's generic np.einsum semantics built from a record of field operations, and the label lists of the
          einsum-backend tt_matrix_to_tensor as Tenalg-style equations;
      (d) cp_norm on carriers with a conjugation (complex factors / weights): norm = ones; for f: norm = norm * dot(transpose(f), conj(f));
-         if weights is not None: norm = norm * (reshape(weights, (-1, 1)) * reshape(weights, (1, -1))) -- the weights are NOT conjugated
-         (flag conj_weights = false: the code as it is; true: the candidate repair); executed at the Gaussian integers GIops.
+         if weights is not None: norm = norm * (reshape(weights, (-1, 1)) * reshape(conj(weights), (1, -1))) (flag conj_weights = true: the code
+         since /repo 20cafdc; false: the code before, which did not conjugate the weights); executed at the Gaussian integers GIops.
    Definitions only. *)
 From Coq Require Import List Arith ZArith Lia Bool.
 From TLV Require Import Base.Shape Base.PyList Base.Tensor Base.BigSum Base.Ops Model.Base Model.BaseExt Model.Factorized Model.FactorizedSrc.
